@@ -60,7 +60,22 @@ func suiteRead(t *testing.T, cfg cfgT) {
 			pt := tupleToProto(tu)
 			var code int
 			var desc string
-			switch k := hr.intn(16); k {
+			switch k := hr.intn(21); k {
+			case 16: // write-shaped requests sent to the READ API: whatever the answer, nothing may be stored
+				code, _ = rest(e.read, "PUT", "/admin/relation-tuples", body)
+				desc = "PUT on read API"
+			case 17:
+				code, _ = rest(e.read, "DELETE", "/admin/relation-tuples?"+q, nil)
+				desc = "DELETE on read API"
+			case 18:
+				code, _ = rest(e.read, "PATCH", "/admin/relation-tuples", []byte(`[{"action":"insert","relation_tuple":`+string(body)+`},{"action":"delete","relation_tuple":`+string(body)+`}]`))
+				desc = "PATCH on read API"
+			case 19:
+				code, _ = rest(oplRouter, r.pick([]string{"PUT", "DELETE", "PATCH"}), "/admin/relation-tuples?"+q, body)
+				desc = "write on syntax API"
+			case 20: // the write service called on the read gRPC server
+				_, err := rts.NewWriteServiceClient(e.rconn).TransactRelationTuples(ctx, &rts.TransactRelationTuplesRequest{RelationTupleDeltas: []*rts.RelationTupleDelta{{Action: rts.RelationTupleDelta_ACTION_INSERT, RelationTuple: pt}}})
+				code, desc = grpcCode(err), "grpc Transact on read server"
 			case 0:
 				code, _ = rest(e.read, "GET", "/relation-tuples/check?"+q, nil)
 				desc = "GET check"
